@@ -267,6 +267,34 @@ def directed(ctx):
     return res
 
 
+def crash_sweep(ctx, bases=None, ks=None, modes=None):
+    """Exhaustive instantiation of CsEnv's Crash(mode, k) action along fixed base paths (spec/consensus/sweep/*.json):
+    for every step of the base that delivers messages, every k in ks and every WAL cut mode, a power loss is armed
+    before that step (k = number of further externally visible effects the engine still performs); after the restart
+    the peers gossip the height's messages again (op redeliver) so that the restarted engine is stimulated to sign
+    again, and the base path continues. Position 0 with a proposer arms the loss before the engine starts."""
+    res = []
+    ks = ks if ks is not None else ctx.pick((0, 2, 3, 4), tuple(range(0, 9)))
+    modes = modes or ctx.pick(("synced", "torn"), ("synced", "torn", "all"))
+    files = sorted(glob.glob(os.path.join(vlib.SPEC, "consensus", "sweep", "*.json")))
+    for f in files:
+        base = json.load(open(f))
+        if bases and base["name"] not in bases:
+            continue
+        st = base["steps"]
+        pos = [i for i, x in enumerate(st) if x["op"] in ("proposal", "votes")]
+        if base.get("sweep_waits"):
+            pos = list(range(len(st)))  # the engine acts on its own timeouts in this base
+        elif st[0]["op"] == "wait":
+            pos = [0] + pos  # a proposer acts from Start
+        for p in pos:
+            for k in ks:
+                for m in modes:
+                    steps = st[:p] + [dict(op="crash", mode=m, k=k), st[p], dict(op="wait"), dict(op="redeliver"), dict(op="wait")] + st[p + 1:]
+                    res.append(dict(name="%s@%d/k%d/%s" % (base["name"], p, k, m), me=base["me"], byz=base["byz"], steps=steps))
+    return res
+
+
 def cluster_schedules(ctx):
     return [json.load(open(f)) for f in sorted(glob.glob(os.path.join(vlib.SPEC, "consensus", "directed", "*.cluster.json")))]
 
